@@ -66,6 +66,27 @@ fn main() {
                     "C11" => gen_stream::gen_c11(&mut rng, thorough, &mut emit_stream),
                     _ => gen_stream::gen_c17(&mut rng, thorough, &mut emit_stream),
                 }
+                if prop == "C11" {
+                    // all interleavings with a concurrently polling consumer
+                    drop(emit_stream);
+                    let mut k = 0u64;
+                    let mut total = 0usize;
+                    let mut exhausted_all = true;
+                    sched_gen::gen_c11(&mut rng, thorough, &mut |c: sched_engine::SchedCase| {
+                        let max = if thorough { 2000 } else { 200 };
+                        let (n, ex) = sched_engine::explore(&c, max, &mut |r| {
+                            let id = format!("{}-X{}", prop, k);
+                            k += 1;
+                            writeln!(cases, "{}", sched_engine::case_line(&id, &c, r)).unwrap();
+                            let mut checks = vec![];
+                            if r.timeout { checks.push("C11:thread-blocked-deadlock".to_string()); }
+                            writeln!(meta, "{}\t{} schedule={:?}\t{}", id, c.class, r.choices, checks.join(",")).unwrap();
+                        });
+                        total += n;
+                        exhausted_all &= ex;
+                    });
+                    eprintln!("schedules={} exhaustive={}", total, exhausted_all);
+                }
                 return;
             }
             match prop.as_str() {
